@@ -13,10 +13,17 @@
 // StopRet, End); the traces are written to <outdir>/traces.ndjson and judged by
 // TLC (spec/net/ChainSyncTrace.tla). The driver only compares the callback
 // sequence with the one the specification predicted for the row (RP).
+//
+// Rows with pipe = true configure a real pipeline.BlockPipeline on the client
+// (Config.Pipeline, node-to-client): the roll-forward callback of these
+// conversations is the pipeline's ApplyFunc, logged with the same CbBegin/CbEnd
+// lines; the trace's Reset line says so (mt = 1) and the observer switches to
+// the pipeline rules (apply order, drain before the roll-backward callback).
 package main
 
 import (
 	"bufio"
+	"context"
 	"encoding/hex"
 	"encoding/json"
 	"fmt"
@@ -33,6 +40,7 @@ import (
 	"github.com/blinklabs-io/gouroboros/cbor"
 	"github.com/blinklabs-io/gouroboros/ledger"
 	lcommon "github.com/blinklabs-io/gouroboros/ledger/common"
+	"github.com/blinklabs-io/gouroboros/pipeline"
 	"github.com/blinklabs-io/gouroboros/protocol"
 	"github.com/blinklabs-io/gouroboros/protocol/chainsync"
 	pcommon "github.com/blinklabs-io/gouroboros/protocol/common"
@@ -109,12 +117,14 @@ func pointIdent(p pcommon.Point) string {
 
 // row is what the orchestrator hands over: a TLC row (hist, cbs) or a seeded long history (gen).
 type row struct {
-	N     int      `json:"n"`
-	Hist  []string `json:"hist"`
-	Cbs   []string `json:"cbs"`
-	Gen   int      `json:"gen"`   // > 0: seeded history of this length
-	Limit *int     `json:"limit"` // configured pipeline limit (nil: chosen from the row index)
-	Mode  string   `json:"mode"`  // ntn | ntc ("" = chosen from the row index)
+	N      int      `json:"n"`
+	Hist   []string `json:"hist"`
+	Cbs    []string `json:"cbs"`
+	Gen    int      `json:"gen"`    // > 0: seeded history of this length
+	Limit  *int     `json:"limit"`  // configured pipeline limit (nil: chosen from the row index)
+	Mode   string   `json:"mode"`   // ntn | ntc ("" = chosen from the row index)
+	Pipe   bool     `json:"pipe"`   // a block pipeline is configured (node-to-client only)
+	Before []int    `json:"before"` // per callback: callbacks that must have returned when it is entered
 }
 
 type plan struct {
@@ -130,6 +140,10 @@ type plan struct {
 	Async     bool     `json:"async"`     // the reply after an AwaitReply comes from another goroutine, later
 	SlowSend  bool     `json:"slowSend"`  // schedule perturbation: the client's enqueue of RequestNext is slowed down
 	Long      bool     `json:"long"`
+	Pipe      bool     `json:"pipe,omitempty"`    // Config.Pipeline set: roll-forwards are applied by a real BlockPipeline
+	PipeCap   int      `json:"pipeCap,omitempty"` // its PrefetchBufferSize (small ones make Submit block)
+	Workers   int      `json:"workers,omitempty"` // its decode workers
+	Before    []int    `json:"-"`
 	seed      int64
 }
 
@@ -145,7 +159,7 @@ func histKey(h []string) string {
 func makePlan(r *row, i int, seed int64) *plan {
 	s := seed*1000003 + int64(i)*7919
 	rng := rand.New(rand.NewSource(s))
-	pl := &plan{seed: s, Cbs: r.Cbs}
+	pl := &plan{seed: s, Cbs: r.Cbs, Before: r.Before, Pipe: r.Pipe}
 	if r.Gen > 0 {
 		kinds := []string{"F", "F", "F", "F", "F", "B", "AF", "AB"}
 		pl.Hist = make([]string, r.Gen)
@@ -154,6 +168,7 @@ func makePlan(r *row, i int, seed int64) *plan {
 		}
 		pl.Long = true
 		pl.Cbs = nil
+		pl.Before = nil
 	} else {
 		pl.Hist = r.Hist
 	}
@@ -179,8 +194,18 @@ func makePlan(r *row, i int, seed int64) *plan {
 	if pl.Long {
 		hk = fmt.Sprintf("gen%d", pl.HistLen)
 	}
+	if pl.Pipe {
+		// the pipeline path exists for node-to-client only; its own dimensions are drawn after the others
+		pl.Mode = "ntc"
+		pl.PipeCap = []int{1, 2, 4, 1000}[rng.Intn(4)]
+		pl.Workers = 1 + rng.Intn(4)
+		pl.Slow = rng.Intn(4) // 3: every apply takes 0.4..2.4 ms
+	}
 	pl.Id = fmt.Sprintf("h=%s|lim=%d|%s|raw=%v|slow=%d|stop=%d|async=%v|ss=%v",
 		hk, pl.Limit, pl.Mode, pl.Raw, pl.Slow, pl.StopAfter, pl.Async, pl.SlowSend)
+	if pl.Pipe {
+		pl.Id += fmt.Sprintf("|pipe=%d/%d", pl.PipeCap, pl.Workers)
+	}
 	if pl.Long {
 		pl.Hist = pl.Hist[:0:0]
 		// regenerate on demand (kept out of the replay object): see expand()
@@ -217,6 +242,19 @@ type run struct {
 	cbBegin, cbEnd                      atomic.Int64
 	tailed                              atomic.Bool
 	events                              atomic.Int64
+
+	pipe                  bool
+	cliHandleF            atomic.Int64 // RollForward messages handled by the client
+	applyEnd              atomic.Int64 // pipeline: apply callbacks returned
+	rollbacks, rbInFlight atomic.Int64 // pipeline: RollBackwards handled / ... while blocks were in the pipeline
+}
+
+// modeKey is the mode part of the disagreement keys (conversations with a block pipeline have their own)
+func (pl *plan) modeKey() string {
+	if pl.Pipe {
+		return pl.Mode + "-pipe"
+	}
+	return pl.Mode
 }
 
 var runs sync.Map // *protocol.Protocol -> *run
@@ -272,6 +310,15 @@ func dispatch(p *protocol.Protocol, e protocol.VerifEvent) {
 		}
 	case "Handle":
 		if ep == "client" && keep {
+			if r.pipe && e.MsgType == chainsync.MessageTypeRollBackward {
+				r.rollbacks.Add(1)
+				if r.cliHandleF.Load() > r.applyEnd.Load() {
+					r.rbInFlight.Add(1)
+				}
+			}
+			if e.MsgType == chainsync.MessageTypeRollForward {
+				r.cliHandleF.Add(1)
+			}
 			r.cliHandle.Add(1)
 		}
 		if ep == "server" {
@@ -313,15 +360,38 @@ type srvMsg struct {
 }
 
 type outcome struct {
-	lines    []trace.Line
-	dead     string
-	disagree string
-	desc     string
-	endMode  string
-	cbKinds  []string
-	muxErrs  int
-	doneSeen bool
-	maxWait  time.Duration
+	lines                 []trace.Line
+	dead                  string
+	disagree              string
+	desc                  string
+	endMode               string
+	cbKinds               []string
+	muxErrs               int
+	doneSeen              bool
+	maxWait               time.Duration
+	rollbacks, rbInFlight int
+}
+
+// schedule perturbation inside the block pipeline (its `verif` hook): a block is held for a moment by the
+// decode worker that has finished with it, or by the apply stage that has just taken it
+var pipePerturb = struct {
+	sync.Mutex
+	r *rand.Rand
+}{r: rand.New(rand.NewSource(1))}
+
+func pipeHook(point, stage string, seq uint64, raw []byte, val int64) {
+	if point != "w.emit" && point != "a.took" {
+		return
+	}
+	pipePerturb.Lock()
+	k := pipePerturb.r.Intn(16)
+	pipePerturb.Unlock()
+	switch {
+	case k < 3:
+		runtime.Gosched()
+	case k < 6:
+		time.Sleep(time.Duration(40*k) * time.Microsecond)
+	}
 }
 
 var extremes = []uint64{0, 1, 1<<63 - 1, 1 << 63, 1<<64 - 1, 1 << 32, 4492800}
@@ -337,7 +407,8 @@ const (
 func runPlan(pl *plan, fxs []fixture) (out outcome) {
 	rng := rand.New(rand.NewSource(pl.seed + 11))
 	hist := pl.expand()
-	r := &run{rec: trace.NewRecorder(chainsync.ProtocolName), perturb: rand.New(rand.NewSource(pl.seed + 7)), slowSend: pl.SlowSend}
+	r := &run{rec: trace.NewRecorder(chainsync.ProtocolName), perturb: rand.New(rand.NewSource(pl.seed + 7)), slowSend: pl.SlowSend,
+		pipe: pl.Pipe}
 	mode := protocol.ProtocolModeNodeToClient
 	if pl.Mode == "ntn" {
 		mode = protocol.ProtocolModeNodeToNode
@@ -484,15 +555,17 @@ func runPlan(pl *plan, fxs []fixture) (out outcome) {
 	// ---- the real client
 	var cbMu sync.Mutex
 	var cbKinds []string
+	var cbBefore []int // per callback: callbacks that had returned when it was entered
 	callback := func(kind string, tip chainsync.Tip, h string) error {
 		id, ok := tipOf[tipKey(tip)]
 		if !ok {
 			id = -1
 		}
+		cbMu.Lock()
 		r.rec.Add(trace.Line{Ep: "client", Ev: "CbBegin", S1: kind, A: int64(id), H: h})
 		n := r.cbBegin.Add(1)
-		cbMu.Lock()
 		cbKinds = append(cbKinds, kind)
+		cbBefore = append(cbBefore, int(r.cbEnd.Load()))
 		cbMu.Unlock()
 		switch pl.Slow {
 		case 1:
@@ -501,9 +574,16 @@ func runPlan(pl *plan, fxs []fixture) (out outcome) {
 			if n%4 == 1 {
 				time.Sleep(time.Duration(1+(n%3)) * time.Millisecond)
 			}
+		case 3:
+			time.Sleep(time.Duration(400+(n*613)%2000) * time.Microsecond)
 		}
+		cbMu.Lock()
 		r.rec.Add(trace.Line{Ep: "client", Ev: "CbEnd"})
+		if pl.Pipe && kind == "F" {
+			r.applyEnd.Add(1)
+		}
 		r.cbEnd.Add(1)
+		cbMu.Unlock()
 		return nil
 	}
 	opts := []chainsync.ChainSyncOptionFunc{
@@ -527,6 +607,34 @@ func runPlan(pl *plan, fxs []fixture) (out outcome) {
 			}
 			return callback("F", tip, h)
 		}))
+	}
+	var bp *pipeline.BlockPipeline
+	if pl.Pipe {
+		// the roll-forward callback of this conversation is the pipeline's ApplyFunc (the client still insists
+		// on a roll-forward callback being configured: if it were called, the observer would judge it as well)
+		bp = pipeline.NewBlockPipeline(
+			pipeline.WithDecodeWorkers(pl.Workers),
+			pipeline.WithPrefetchBufferSize(pl.PipeCap),
+			pipeline.WithSkipBodyHashValidation(true),
+			pipeline.WithApplyFunc(func(it *pipeline.BlockItem) error {
+				return callback("F", it.Tip(), ident(it.BlockType(), it.RawCbor()))
+			}),
+		)
+		if err := bp.Start(context.Background()); err != nil {
+			out.dead = "BlockPipeline.Start: " + err.Error()
+			return out
+		}
+		// the application keeps reading the pipeline's output streams
+		go func() {
+			for range bp.Results() {
+			}
+		}()
+		go func() {
+			for err := range bp.Errors() {
+				r.rec.Add(trace.Line{Ep: "client", Ev: "PipeErr", S2: err.Error()})
+			}
+		}()
+		opts = append(opts, chainsync.WithPipeline(bp))
 	}
 	cliCfg := chainsync.NewConfig(opts...)
 	cliCfg.SkipBlockValidation = true
@@ -555,6 +663,15 @@ func runPlan(pl *plan, fxs []fixture) (out outcome) {
 		server.Stop()
 		ma.Stop()
 		mb.Stop()
+		if bp != nil {
+			ps := make(chan struct{})
+			go func() { _ = bp.Stop(); close(ps) }()
+			select {
+			case <-ps:
+			case <-time.After(10 * time.Second):
+			}
+		}
+		out.rollbacks, out.rbInFlight = int(r.rollbacks.Load()), int(r.rbInFlight.Load())
 		out.lines = r.rec.Lines()
 		cbMu.Lock()
 		out.cbKinds = append([]string(nil), cbKinds...)
@@ -584,7 +701,7 @@ func runPlan(pl *plan, fxs []fixture) (out outcome) {
 	atRest := func() bool {
 		return r.cliEnq.Load() == r.cliDeq.Load() && r.cliDeqRN.Load() == r.srvHandleRN.Load() &&
 			r.srvHandleRN.Load() == r.srvAnswered.Load() && r.srvSends.Load() == r.cliHandle.Load() &&
-			r.cbBegin.Load() == r.cbEnd.Load()
+			r.cbBegin.Load() == r.cbEnd.Load() && (!pl.Pipe || r.applyEnd.Load() == r.cliHandleF.Load())
 	}
 	stopRet := make(chan struct{})
 	stopIssued := false
@@ -653,6 +770,17 @@ loop:
 			time.Sleep(time.Millisecond)
 		}
 	}
+	if pl.Pipe && (out.endMode == "complete" || out.endMode == "stopped") {
+		// the pipeline is the application's: Stop does not wait for it. The conversation ends when the blocks
+		// the client has handed over have been applied (or when nothing is applied any more for a long time)
+		last, since := r.applyEnd.Load(), time.Now()
+		for r.applyEnd.Load() < r.cliHandleF.Load() && time.Since(since) < stallWait {
+			if n := r.applyEnd.Load(); n != last {
+				last, since = n, time.Now()
+			}
+			time.Sleep(200 * time.Microsecond)
+		}
+	}
 	out.maxWait = time.Since(start)
 	r.rec.Add(trace.Line{Ep: "client", Ev: "End", S1: out.endMode})
 
@@ -669,6 +797,20 @@ loop:
 			out.disagree = "callbacks"
 			out.desc = fmt.Sprintf("callbacks %v, the specification predicts %v (%s)", got, pl.Cbs,
 				map[bool]string{true: "all of them", false: "a prefix"}[out.endMode == "complete"])
+		}
+		// ... and how many callbacks must have returned when each of them was entered
+		if !bad && pl.Before != nil {
+			cbMu.Lock()
+			bef := append([]int(nil), cbBefore...)
+			cbMu.Unlock()
+			for i := 0; i < len(bef) && i < len(pl.Before); i++ {
+				if bef[i] != pl.Before[i] {
+					out.disagree = "overlap"
+					out.desc = fmt.Sprintf("callback %d (%s) was entered when %d callbacks had returned, the specification predicts %d "+
+						"(callbacks %v): an earlier update was still being delivered", i+1, got[i], bef[i], pl.Before[i], got)
+					break
+				}
+			}
 		}
 	}
 	return out
@@ -688,6 +830,7 @@ func main() {
 	}
 	fxs := loadFixtures(rep)
 	protocol.VerifTracer = dispatch
+	pipeline.VerifHook = pipeHook
 	f, err := os.Create(filepath.Join(outdir, "traces.ndjson"))
 	if err != nil {
 		rep.Dead("%v", err)
@@ -702,7 +845,7 @@ func main() {
 	sem := make(chan struct{}, par)
 	var wg sync.WaitGroup
 	var mu sync.Mutex
-	var events, traces, stalls, skipped, muxErrs, doneSeen, stopped, msgs int
+	var events, traces, stalls, skipped, muxErrs, doneSeen, stopped, msgs, pipeRuns, rollbacks, rbInFlight int
 	maxOutWait := time.Duration(0)
 	for i := range rows {
 		mu.Lock()
@@ -739,7 +882,14 @@ func main() {
 			}
 			muxErrs += o.muxErrs
 			msgs += pl.HistLen
-			enc.Encode(trace.Line{Ep: "client", Ev: "Reset", S1: pl.Id, A: int64(pl.Limit), B: int64(chainsync.DefaultPipelineLimit)})
+			mt := 0
+			if pl.Pipe {
+				mt = 1
+				pipeRuns++
+				rollbacks += o.rollbacks
+				rbInFlight += o.rbInFlight
+			}
+			enc.Encode(trace.Line{Ep: "client", Ev: "Reset", Mt: mt, S1: pl.Id, A: int64(pl.Limit), B: int64(chainsync.DefaultPipelineLimit)})
 			for _, l := range o.lines {
 				enc.Encode(l)
 			}
@@ -750,7 +900,7 @@ func main() {
 				rep.Sample(map[string]any{"plan": pl, "trace_events": len(o.lines), "callbacks": len(o.cbKinds), "end": o.endMode})
 			}
 			if o.disagree != "" {
-				rep.Disagree(fmt.Sprintf("C21:rp:%s:limit=%d:%s:h=%s", o.disagree, pl.Limit, pl.Mode, histKey(pl.Hist)), o.desc, pl)
+				rep.Disagree(fmt.Sprintf("C21:rp:%s:limit=%d:%s:h=%s", o.disagree, pl.Limit, pl.modeKey(), histKey(pl.Hist)), o.desc, pl)
 			}
 		}(i, pl)
 	}
@@ -766,5 +916,8 @@ func main() {
 	rep.Extra["plans_skipped_after_three_stalls"] = skipped
 	rep.Extra["muxer_errors_after_stop_not_stated_by_property"] = muxErrs
 	rep.Extra["longest_run_s"] = maxOutWait.Seconds()
+	rep.Extra["runs_with_a_block_pipeline"] = pipeRuns
+	rep.Extra["pipeline_rollbacks_handled"] = rollbacks
+	rep.Extra["pipeline_rollbacks_handled_while_blocks_were_in_flight"] = rbInFlight
 	rep.Finish()
 }
